@@ -7,9 +7,13 @@
 (*   Begin       BeginTransaction; a failed producer id is reloaded first: InitProducerID bumps the epoch and the           *)
 (*               coordinator aborts whatever that id still had open ("fence-abort")                                          *)
 (*   Produce     a record of the transaction is appended under the client's epoch (first one registers the partition);      *)
-(*               or it fails and is not appended. While an End is unconfirmed the client refuses records (not in txn).      *)
+(*               or it fails and is not appended; or (Ghost) it is appended but the client is told it failed: the answer    *)
+(*               was lost and the retry got a fatal code, so nothing is registered at the client ("attempted" only).        *)
+(*               While an End is unconfirmed the client refuses records (not in txn).                                       *)
 (*   EndSend     EndTransaction(commit | abort) with something to end: EndTxn goes out                                       *)
-(*   EndNothing  EndTransaction with nothing registered: returns without a request                                           *)
+(*   EndNothing  EndTransaction with nothing registered: returns without a request — unless produces were attempted and the  *)
+(*               broker bumps epochs per transaction (KIP-890 part 2): then an abort is sent whatever was asked, to clear     *)
+(*               what the attempts may have left at the broker (EndSend with the commit flag forced to FALSE)               *)
 (*   EndUnconf   EndTransaction after an unconfirmed End: a commit is refused with an error, an abort succeeds; both         *)
 (*               through the producer id reload (fence-abort)                                                               *)
 (*   Handle      the coordinator handles EndTxn: writes the marker if the transaction is ongoing; answers a retry of the     *)
@@ -19,25 +23,26 @@
 (*   Refuse      the coordinator answers with a fatal code without handling: End returns the error, producer id failed,      *)
 (*               inTxn restored, endUnconfirmed set                                                                          *)
 (* Reload = FALSE is the mutant "a failed producer id is not reloaded": the unconfirmed transaction's records ride along     *)
-(* with the next commit.                                                                                                     *)
+(* with the next commit. AbortAttempted = FALSE is the mutant "an abort with nothing registered sends nothing even though   *)
+(* produces were attempted": a ghost record rides along with the next commit.                                               *)
 EXTENDS Integers, Sequences, FiniteSets, TLC, Json
-CONSTANTS MaxTxn, MaxRec, MaxFaults, Reload, Bump,   \* Bump: KIP-890 part 2, every EndTxn bumps the epoch
+CONSTANTS MaxTxn, MaxRec, MaxFaults, Reload, Bump, AbortAttempted,   \* Bump: KIP-890 part 2, every EndTxn bumps the epoch
           Driver,   \* TRUE: scenario generation — the application of the D-TXN driver: records fail only while an End is unconfirmed,
                     \* a failed End is always retried as TryAbort
           OnePerRequest   \* fault model of the drivers: at most one fault on the transmissions of one EndTxn. Without it the answer of a
                           \* handled commit can be lost AND its retry refused: End reports an error for a committed transaction, which
                           \* no client can avoid (Txn_twofaults.cfg shows TLC finding exactly that)
 VARIABLES cst, cep, clast, log,            \* coordinator: Empty / Ongoing / Complete, epoch, kind of the last completed end; the partition log
-          ep, failed, inTxn, unconf, producing, txn, added,   \* client
+          ep, failed, inTxn, unconf, producing, txn, added, attempted,   \* client
           req,                             \* EndTxn in flight: [commit, ep, st] st: "sent" | "ok" | "bad", or None
           rec, report, faults,
           hist                             \* what the application and the faults did, for scenario export (hidden by VIEW)
-vars == <<cst, cep, clast, log, ep, failed, inTxn, unconf, producing, txn, added, req, rec, report, faults, hist>>
-view == <<cst, cep, clast, log, ep, failed, inTxn, unconf, producing, txn, added, req, rec, report, faults>>
+vars == <<cst, cep, clast, log, ep, failed, inTxn, unconf, producing, txn, added, attempted, req, rec, report, faults, hist>>
+view == <<cst, cep, clast, log, ep, failed, inTxn, unconf, producing, txn, added, attempted, req, rec, report, faults>>
 H(e) == hist' = Append(hist, e)
 None == [st |-> "none"]
 Init == /\ cst = "Empty" /\ cep = 0 /\ clast = "none" /\ log = <<>>
-        /\ ep = 0 /\ failed = FALSE /\ inTxn = FALSE /\ unconf = FALSE /\ producing = FALSE /\ txn = 0 /\ added = FALSE
+        /\ ep = 0 /\ failed = FALSE /\ inTxn = FALSE /\ unconf = FALSE /\ producing = FALSE /\ txn = 0 /\ added = FALSE /\ attempted = FALSE
         /\ req = None /\ rec = <<>> /\ report = <<>> /\ faults = 0 /\ hist = <<>>
 coord == <<cst, cep, clast, log>>
 
@@ -50,34 +55,42 @@ ReloadPid == IF failed /\ Reload THEN FenceAbort /\ ep' = cep + 1 /\ failed' = F
 
 Begin == /\ ~inTxn /\ req = None /\ txn < MaxTxn
          /\ ReloadPid
-         /\ inTxn' = TRUE /\ producing' = TRUE /\ txn' = txn + 1 /\ added' = FALSE /\ unconf' = FALSE
+         /\ inTxn' = TRUE /\ producing' = TRUE /\ txn' = txn + 1 /\ added' = FALSE /\ attempted' = FALSE /\ unconf' = FALSE
          /\ report' = Append(report, "open") /\ H([op |-> "begin"])
          /\ UNCHANGED <<req, rec, faults>>
 
 Produce == /\ inTxn /\ req = None /\ Len(rec) < MaxRec
-           /\ \/ /\ producing /\ ep = cep                      \* appended and acknowledged
+           /\ \/ /\ producing /\ ep = cep /\ ~(attempted /\ ~added)   \* appended and acknowledged (not after a ghost: the application gives the transaction up)
                  /\ log' = Append(log, [k |-> "data", id |-> Len(rec) + 1])
-                 /\ cst' = "Ongoing" /\ added' = TRUE
-                 /\ rec' = Append(rec, [txn |-> txn, ok |-> TRUE]) /\ H([op |-> "produce", ok |-> TRUE])
-                 /\ UNCHANGED <<cep, clast>>
+                 /\ cst' = "Ongoing" /\ added' = TRUE /\ attempted' = TRUE
+                 /\ rec' = Append(rec, [txn |-> txn, ok |-> TRUE]) /\ H([op |-> "produce", ok |-> TRUE, ghost |-> FALSE])
+                 /\ UNCHANGED <<cep, clast, faults>>
               \/ /\ (Driver => unconf)
-                 /\ rec' = Append(rec, [txn |-> txn, ok |-> FALSE]) /\ H([op |-> "produce", ok |-> FALSE])   \* refused by the client or failed: never appended
-                 /\ UNCHANGED <<coord, added>>
-           /\ UNCHANGED <<ep, failed, inTxn, unconf, producing, txn, req, report, faults>>
+                 /\ rec' = Append(rec, [txn |-> txn, ok |-> FALSE]) /\ H([op |-> "produce", ok |-> FALSE, ghost |-> FALSE])   \* refused by the client or failed: never appended
+                 /\ attempted' = (attempted \/ ~unconf)
+                 /\ UNCHANGED <<coord, added, faults>>
+              \/ /\ Bump /\ producing /\ ep = cep /\ ~added /\ ~attempted /\ faults < MaxFaults   \* ghost: in the log, reported as failed
+                 /\ log' = Append(log, [k |-> "data", id |-> Len(rec) + 1])
+                 /\ cst' = "Ongoing" /\ attempted' = TRUE /\ faults' = faults + 1
+                 /\ rec' = Append(rec, [txn |-> txn, ok |-> FALSE]) /\ H([op |-> "produce", ok |-> FALSE, ghost |-> TRUE])
+                 /\ UNCHANGED <<cep, clast, added>>
+           /\ UNCHANGED <<ep, failed, inTxn, unconf, producing, txn, req, report>>
 
 Report(r) == report' = [report EXCEPT ![txn] = r]
-EndNothing(commit) == /\ inTxn /\ req = None /\ ~unconf /\ ~added
+MustClear(commit) == Bump /\ attempted /\ (AbortAttempted \/ commit)   \* KIP-890 part 2: attempts may have left something at the broker
+EndNothing(commit) == /\ inTxn /\ req = None /\ ~unconf /\ ~added /\ ~MustClear(commit)
                       /\ inTxn' = FALSE /\ producing' = FALSE /\ Report(IF commit THEN "committed" ELSE "aborted") /\ H([op |-> "end", commit |-> commit])
-                      /\ UNCHANGED <<coord, ep, failed, unconf, txn, added, req, rec, faults>>
-EndSend(commit) == /\ inTxn /\ req = None /\ ~unconf /\ added
+                      /\ UNCHANGED <<coord, ep, failed, unconf, txn, added, attempted, req, rec, faults>>
+\* ask: what the application asked for (and is told on success); commit: what goes on the wire
+EndSend(commit) == /\ inTxn /\ req = None /\ ~unconf /\ (added \/ MustClear(commit))
                    /\ inTxn' = FALSE /\ producing' = FALSE /\ added' = FALSE
-                   /\ req' = [st |-> "sent", commit |-> commit, ep |-> ep, f |-> FALSE] /\ H([op |-> "end", commit |-> commit])
-                   /\ UNCHANGED <<coord, ep, failed, unconf, txn, rec, report, faults>>
+                   /\ req' = [st |-> "sent", commit |-> (commit /\ added), ask |-> commit, ep |-> ep, f |-> FALSE] /\ H([op |-> "end", commit |-> commit])
+                   /\ UNCHANGED <<coord, ep, failed, unconf, txn, attempted, rec, report, faults>>
 EndUnconf(commit) == /\ inTxn /\ req = None /\ unconf /\ (Driver => ~commit) /\ H([op |-> "retry", commit |-> commit])
                      /\ ReloadPid
                      /\ inTxn' = FALSE /\ producing' = FALSE /\ unconf' = FALSE /\ added' = FALSE
                      /\ Report(IF commit THEN "error" ELSE "aborted")
-                     /\ UNCHANGED <<txn, req, rec, faults>>
+                     /\ UNCHANGED <<txn, attempted, req, rec, faults>>
 
 Handle == /\ req.st = "sent"
           /\ IF req.ep = cep /\ cst = "Ongoing"
@@ -88,20 +101,20 @@ Handle == /\ req.st = "sent"
                ELSE IF cst = "Complete" /\ clast = (IF req.commit THEN "commit" ELSE "abort") /\ req.ep = (IF Bump THEN cep - 1 ELSE cep)
                THEN req' = [req EXCEPT !.st = "ok"] /\ UNCHANGED coord        \* the retry of the request that completed it
                ELSE req' = [req EXCEPT !.st = "bad"] /\ UNCHANGED coord
-          /\ UNCHANGED <<ep, failed, inTxn, unconf, producing, txn, added, rec, report, faults, hist>>
+          /\ UNCHANGED <<ep, failed, inTxn, unconf, producing, txn, added, attempted, rec, report, faults, hist>>
 Deliver == /\ req.st \in {"ok", "bad"}
            /\ IF req.st = "ok"
-                THEN /\ Report(IF req.commit THEN "committed" ELSE "aborted") /\ ep' = cep
+                THEN /\ Report(IF req.ask THEN "committed" ELSE "aborted") /\ ep' = cep
                      /\ UNCHANGED <<failed, inTxn, unconf>>
                 ELSE /\ Report("error") /\ failed' = TRUE /\ inTxn' = TRUE /\ unconf' = TRUE /\ ep' = ep
            /\ req' = None
-           /\ UNCHANGED <<coord, producing, txn, added, rec, faults, hist>>
+           /\ UNCHANGED <<coord, producing, txn, added, attempted, rec, faults, hist>>
 Lose == /\ req.st = "ok" /\ faults < MaxFaults /\ (OnePerRequest => ~req.f)
         /\ req' = [req EXCEPT !.st = "sent", !.f = TRUE] /\ faults' = faults + 1 /\ H([op |-> "lose"])
-        /\ UNCHANGED <<coord, ep, failed, inTxn, unconf, producing, txn, added, rec, report>>
+        /\ UNCHANGED <<coord, ep, failed, inTxn, unconf, producing, txn, added, attempted, rec, report>>
 Refuse == /\ req.st = "sent" /\ faults < MaxFaults /\ (OnePerRequest => ~req.f)
           /\ req' = [req EXCEPT !.st = "bad", !.f = TRUE] /\ faults' = faults + 1 /\ H([op |-> "refuse"])
-          /\ UNCHANGED <<coord, ep, failed, inTxn, unconf, producing, txn, added, rec, report>>
+          /\ UNCHANGED <<coord, ep, failed, inTxn, unconf, producing, txn, added, attempted, rec, report>>
 
 Next == Begin \/ Produce \/ Handle \/ Deliver \/ Lose \/ Refuse
         \/ \E c \in BOOLEAN : EndNothing(c) \/ EndSend(c) \/ EndUnconf(c)
